@@ -42,7 +42,8 @@ pub fn gen(idx: u64, rng: &mut Rng, _tier: Tier) -> Scn {
     let mut ops = Vec::new();
     for i in 0..nobj {
         let (b, e): (u32, u16) = if scheme == Scheme::Raptor { (4, 8) } else { (*rng.pick(&[2u32, 3]), *rng.pick(&[4u16, 8])) };
-        let blocks = if grid { 2 } else { rng.range(1, 3) };
+        // some objects have many source blocks (bookkeeping of decoded-but-unwritten blocks across a join)
+        let blocks = if grid { 2 } else if rng.chance(0.15) { rng.range(17, 30) } else { rng.range(1, 3) };
         let len = (blocks as usize * b as usize * e as usize).saturating_sub(if grid { 3 } else { rng.range(0, 5) as usize });
         let mut o = ObjectSpec::basic(len.max(1), 0xC16 + idx * 7 + i as u64, i);
         o.oti = Some(OtiSpec::new(scheme, e, b, if scheme == Scheme::NoCode { 0 } else { 1 }, inband));
@@ -98,6 +99,7 @@ pub fn run(scn: &Scn, ctx: &Ctx, scratch: &Path) {
     };
     let ep = [scn.sender.spec.endpoint.build()];
     let mut joins = 0u64;
+    let mut fdt_starved = false;
     for j in lo..hi {
         // deadline: end of the second full transfer burst of every object and of the second full FDT
         // transmission that start at or after the join
@@ -117,6 +119,26 @@ pub fn run(scn: &Scn, ctx: &Ctx, scratch: &Path) {
             deadline = deadline.max(*full[2 * st - 1].pkts.last().unwrap());
         }
         let fdts: Vec<usize> = sess.txs.iter().filter(|t| t.first >= j && t.complete_at.is_some()).map(|t| t.last).collect();
+        if enough && fdts.len() < 2 && !fdt_starved {
+            // every object went through two more full cycles: the FDT carousel must have come round as well,
+            // provided the recording lasts long enough for its configured repetition delay
+            let d_us = match scn.sender.spec.fdt_carousel {
+                CarouselSpec::DelayMs(d) | CarouselSpec::IntervalMs(d) => d * 1000,
+            };
+            let left = trace.pkts.last().map(|p| p.t_us).unwrap_or(0).saturating_sub(trace.pkts[j].t_us);
+            if left >= 4 * d_us + 50_000 {
+                fdt_starved = true;
+                violate(
+                    ctx,
+                    "C16/not-delivered-after-late-join",
+                    "fdt-not-repeated",
+                    format!(
+                        "receiver joined at packet {}: in the following {} us every object went through two more full cycles but only {} complete FDT transmission(s) followed (FDT carousel delay {} us): a late joiner never learns the FDT",
+                        j, left, fdts.len(), d_us
+                    ),
+                );
+            }
+        }
         if !enough || fdts.len() < 2 {
             ctx.borrow_mut().note("skip:join-too-close-to-the-end");
             continue;
